@@ -565,6 +565,14 @@ def rule_pseudo_spans(ctx, facts, rule):
         okp = bool(ewp) and all(has_origin(prov.of_operand(fn, fn.term(b)["args"][1]), kind="param", key=1, path=()) for b in ewp)
         ctx.check(okp, rule, fn.path, fn.span, "the pseudo-span is a child of the span it is attached to (enter_with_parent(_, self))",
                   "", "enter_with_parent sites %s" % ewp, extra="parent")
+        # the handle's route is the only route: whatever the calling thread's local context is, the attachment travels as a pseudo-span of
+        # its own under the handle's token (a detour through the thread's scope makes it depend on when that scope is closed and on its
+        # capacity)
+        ok_route, wit = fn.must_pass([0], ewp) if ewp else (False, None)
+        local_calls = [fn.loc(b) for b in fn.calls_re(r"^fastrace::local::local_span::LocalSpan::|^fastrace::local::local_span_stack::", cleanup=False)]
+        ctx.check(ok_route and not local_calls, rule, fn.path, fn.span,
+                  "Span::%s creates its pseudo-span on every path (no other route chosen from the thread's local context)" % name, "",
+                  "a path returns at bb%s without enter_with_parent; calls into the local scope machinery: %s" % (wit, local_calls), extra="route")
         if name == "add_event":
             props = [(b, s) for b, blk in enumerate(fn.blocks) if not blk["cleanup"] for s in blk["stmts"]
                      if s["k"] == "assign" and ".properties" in s["lhs"]["p"] and ".raw_span" in s["lhs"]["p"]]
@@ -1490,6 +1498,29 @@ def rule_mount_scope(ctx, facts, rule):
         ctx.fail(rule, fn.path, fn.span, "postprocess_span_collection mounts parked attachments", "anchor lost: no mount_danglings call", extra="mount-scope")
         return
     producers = [b for b in fn.calls_re(r"global_collector::amend_(local_)?span$", cleanup=False)]
+    # one table: what a batch cannot place yet is parked in the very table the trace keeps across cycles (the parameter), and what is
+    # mounted is taken from that table. A scratch table per batch that is merged afterwards makes the order of an early (parked) and a
+    # late (fresh) attachment of one span depend on the merge
+    tables_ok, n_tab = True, 0
+    for b in producers + mounts:
+        t = fn.term(b)
+        for i, ty in enumerate(t.get("arg_tys", [])):
+            if "HashMap<fastrace::collector::id::SpanId" in ty and i < len(t["args"]):
+                n_tab += 1
+                src = prov.of_operand(fn, t["args"][i])
+                if not any(o.kind == "param" for o in src):
+                    tables_ok = False
+                    ctx.fail(rule, fn.path, fn.loc(b), "attachments are parked in, and mounted from, the table the trace keeps across cycles "
+                             "(postprocess_span_collection's own parameter)",
+                             "the table handed to %s is local to the call (%s): attachments parked by an earlier cycle and attachments arriving "
+                             "with the record are mounted from two tables, and their order on the record is no longer the order they were made in"
+                             % (t["callee"].rsplit("::", 1)[1], origin_strs(src, 3)), extra="one-table")
+    if tables_ok:
+        ctx.check(n_tab >= len(producers) + len(mounts) and n_tab > 0, rule, fn.path, fn.span,
+                  "attachments are parked in, and mounted from, the table the trace keeps across cycles", "%d table arguments, all the parameter" % n_tab,
+                  "anchor lost: amend_* / mount_danglings take no HashMap<SpanId, _> argument", extra="one-table")
+    ctx.check(len(mounts) == 1, rule, fn.path, fn.loc(mounts[0]), "attachments are mounted by one mount_danglings call per batch", "",
+              "%d mount_danglings calls: the second one appends behind what the first one placed, whatever was attached first" % len(mounts), extra="mount-calls")
     for m in mounts:
         t = fn.term(m)
         if fn.on_cycle(m):
